@@ -7,7 +7,7 @@ From Coq Require Import Permutation Sorting.Sorted ZifyBool ZifyN.
 (* ---- the table facts that make every unwrap succeed *)
 
 Record TI (b : bst) : Prop := {
-  t_dom : forall s e, tgN s (s_entries (b_st b)) = Some e -> s < b_next b;
+  t_dom : DomIff (b_next b) (s_entries (b_st b));
   t_vals : forall i s, tgP i (s_id2seq (b_st b)) = Some s -> tgN s (s_entries (b_st b)) <> None;
   t_ididx : forall s e, tgN s (s_entries (b_st b)) = Some e -> tgP (i_id e) (s_id2seq (b_st b)) <> None;
   t_key : forall op u s off, tgP op (s_utxo (b_st b)) = Some u -> In (s, off) (u_insc u) ->
@@ -70,7 +70,7 @@ Lemma step_ti : forall h rg f sp o b b',
   update_location h rg f sp o b = Ok b' -> TI b'.
 Proof.
   intros h rg f sp o b b' [TD TV TX TK [C1 C2]] HO H.
-  assert (D' : forall s e, tgN s (s_entries (b_st b)) = Some e -> s < b_next b) by exact TD.
+  pose proof (step_dom _ _ _ _ _ _ _ H TD) as TD'.
   destruct (update_utxo_shape _ _ _ _ _ _ _ H) as (op & s0 & off0 & U & Hc).
   destruct (f_origin f) as [c fee hid ps re ub vi|seq] eqn:Ho.
   - destruct (update_new_shape _ _ _ _ _ _ _ _ _ _ _ _ _ _ Ho H) as (e & [S1 S2 S3 S4 S5 S6 S7 S8 S9 S10 S11 S12]).
@@ -79,7 +79,7 @@ Proof.
     assert (Hkeep : forall s, tgN s (s_entries (b_st b)) <> None -> tgN s (s_entries (b_st b')) <> None).
     { intros s Hs. rewrite S5, tgN_set. destruct (N.eqb_spec s (b_next b)); [discriminate|exact Hs]. }
     split.
-    + intros s x. rewrite S5, S8, tgN_set. destruct (N.eqb_spec s (b_next b)); [lia|]. intro Hx. specialize (TD _ _ Hx). lia.
+    + exact TD'.
     + intros i s. rewrite S6, tgP_set. destruct (pair_eqb i (f_id f)).
       * intro Hx. inv Hx. rewrite S5, tgN_set, N.eqb_refl. discriminate.
       * intro Hx. apply Hkeep. eapply TV; eauto.
@@ -102,7 +102,7 @@ Proof.
     { intros s x Hx. destruct O8 as [O8|(e0 & He0 & O8)]; rewrite O8 in Hx; eauto.
       rewrite tgN_set in Hx. destruct (N.eqb_spec s seq); eauto. inv Hx. eauto. }
     split.
-    + rewrite O3. intros s x Hx. destruct (Hback _ _ Hx) as (y & Y & _). eauto.
+    + exact TD'.
     + rewrite O1. intros i s Hx. apply Hkeep. eapply TV; eauto.
     + rewrite O1. intros s x Hx. destruct (Hback _ _ Hx) as (y & Y & Q). rewrite Q. eapply TX; eauto.
     + rewrite U. intros op' u' s off Hu Hp. apply tg_push in Hu. destruct Hu as [[Hu _]|(-> & R & Hps)].
@@ -280,4 +280,151 @@ Proof.
   - cbn [bind]. replace (pre ++ u :: cur') with ((pre ++ [u]) ++ cur') by (rewrite <- app_assoc; reflexivity).
     apply IH; auto; try (rewrite app_length; cbn [length]; lia); try (cbn [length] in L2; lia); try (intro Hc; lia).
     intros u0 s off Hu Hp. eapply HK; [right; exact Hu|exact Hp].
+Qed.
+
+(* ---- offsets of bound new inscriptions lie inside the inputs (calculate_sat's unreachable!) *)
+
+Definition NO (tov : N) (a : facc) : Prop :=
+  forall f, In f (a_float a) -> is_new f = true -> f_unbound f = false -> f_offset f < a_tiv a \/ f_offset f < tov.
+
+Lemma inputs_loop_no : forall cfg st txid height jubilant tov ins idx ents envs a a',
+  NO tov a -> inputs_loop cfg st txid height jubilant tov ins idx ents envs a = Ok a' -> NO tov a' /\ a_tiv a <= a_tiv a'.
+Proof.
+  intros cfg st txid height jubilant tov ins. induction ins as [|prev r IH]; intros idx ents envs a a' HN H; cbn [inputs_loop] in H.
+  - inv H. split; auto. lia.
+  - destruct (is_null prev).
+    + apply IH in H.
+      * cbn [a_tiv] in H. destruct H. split; auto. lia.
+      * intros f Hf Hn Hu. cbn [a_float a_tiv] in *. destruct (HN f Hf Hn Hu); [left; lia|right; auto].
+    + destruct (nth_error ents (N.to_nat idx)) as [u|]; [|discriminate].
+      dbind H. destruct a0 as [fl io]. destruct (span_input idx envs) as [mine rest].
+      dbind H. rename a0 into a1. apply IH in H.
+      * destruct H as [H1 H2]. split; auto. destruct (news_offsets _ _ _ _ _ _ _ _ _ E0) as [T _]. cbn [a_tiv] in T. lia.
+      * destruct (news_offsets _ _ _ _ _ _ _ _ _ E0) as [T Hnews]. cbn [a_tiv a_float] in *.
+        intros f Hf Hn Hu. rewrite T. destruct (Hnews f Hf) as [Hin|(_ & _ & v & V1 & V2 & V3)].
+        -- apply olds_spec in E. destruct E as (extra & -> & Fo). apply in_app_or in Hin. destruct Hin as [Hin|Hin].
+           ++ destruct (HN f Hin Hn Hu); [left; lia|right; auto].
+           ++ rewrite Forall_forall in Fo. rewrite (Fo f Hin) in Hn. discriminate.
+        -- unfold f_unbound in Hu. destruct (f_origin f) as [c fee hid ps re ub vi|]; [|contradiction]. rewrite V3 in Hu.
+           apply orb_false_iff in Hu. destruct Hu as [Hiv _]. destruct (N.eqb_spec (total_value cfg u) 0); [discriminate|].
+           destruct (v_ptr v) as [p|]; [destruct (N.ltb_spec p tov); [right; lia|left; lia] | left; lia].
+Qed.
+
+Lemma f_unbound_fix : forall p fee f, f_unbound (fix_new p fee f) = f_unbound f.
+Proof. intros. unfold fix_new, f_unbound. destruct (f_origin f) eqn:E; cbn; rewrite ?E; auto. Qed.
+
+(* ---- the ledger of unspent values: the validity predicate of chains *)
+
+Definition ledger := list (outpoint * N).
+
+Fixpoint ledger_take (ins : list outpoint) (L : ledger) : option (N * ledger) :=
+  match ins with
+  | [] => Some (0, L)
+  | p :: r =>
+    match tgP p L with
+    | None => None
+    | Some v => match ledger_take r (tdel pair_eqb p L) with Some (s, L') => Some (v + s, L') | None => None end
+    end
+  end.
+
+Fixpoint ledger_put (txid vout : N) (outs : list txout) (L : ledger) : ledger :=
+  match outs with
+  | [] => L
+  | o :: r => ledger_put txid (vout + 1) r (tset pair_eqb (txid, vout) (o_value o) L)
+  end.
+
+Definition Led (cfg : config) (L : ledger) (U : list (outpoint * uentry)) : Prop :=
+  forall op v, tgP op L = Some v -> exists u, tgP op U = Some u /\ total_value cfg u = v.
+
+Definition sum_tv (cfg : config) (ents : list uentry) : N := fold_right (fun u a => total_value cfg u + a) 0 ents.
+
+Lemma take_inputs_led : forall cfg ins L U s L1,
+  Led cfg L U -> ledger_take ins L = Some (s, L1) ->
+  exists ents U1, take_inputs ins U = Ok (ents, U1) /\ Led cfg L1 U1 /\ s = sum_tv cfg ents.
+Proof.
+  intros cfg ins. induction ins as [|p r IH]; intros L U s L1 HL H; cbn [ledger_take] in H.
+  - inv H. exists [], U. cbn. auto.
+  - destruct (tgP p L) as [v|] eqn:Q; [|discriminate]. destruct (ledger_take r (tdel pair_eqb p L)) as [[s' L']|] eqn:Q2; [|discriminate]. inv H.
+    destruct (HL p v Q) as (u & U1 & U2).
+    assert (HL' : Led cfg (tdel pair_eqb p L) (tdel pair_eqb p U)).
+    { intros op v' Hq. assert (op <> p) by (intro; subst; rewrite (tget_tdel_same pair_eqb) in Hq; discriminate).
+      rewrite (tget_tdel_other pair_eqb pair_eqb_eq) in Hq by auto. destruct (HL op v' Hq) as (u' & A & B). exists u'.
+      rewrite (tget_tdel_other pair_eqb pair_eqb_eq) by auto. auto. }
+    destruct (IH _ _ _ _ HL' Q2) as (ents & U1' & A & B & C). exists (u :: ents), U1'. cbn [take_inputs]. rewrite U1, A. cbn [bind].
+    split; auto. split; auto. cbn [sum_tv fold_right]. fold (sum_tv cfg ents). lia.
+Qed.
+
+Lemma Led_tset : forall cfg L U k v u, Led cfg L U -> total_value cfg u = v ->
+  Led cfg (tset pair_eqb k v L) (tset pair_eqb k u U).
+Proof.
+  intros cfg L U k v u HL Hv op v' Hq. rewrite tgP_set in Hq. rewrite tgP_set. destruct (pair_eqb op k).
+  - inv Hq. exists u. auto.
+  - apply HL. exact Hq.
+Qed.
+
+Lemma put_outputs_led : forall cfg txid outs vout rs L U,
+  Led cfg L U ->
+  (c_sats cfg = true -> Forall2 (fun o m => ranges_size m = o_value o) outs rs) ->
+  Led cfg (ledger_put txid vout outs L) (put_outputs cfg txid vout outs rs U).
+Proof.
+  intros cfg txid outs. induction outs as [|o r IH]; intros vout rs L U HL HS; cbn [ledger_put put_outputs]; auto.
+  apply IH.
+  - apply Led_tset; auto. unfold total_value. destruct (c_sats cfg) eqn:S; cbn [u_value u_ranges]; auto.
+    specialize (HS eq_refl). inv HS. cbn [hd]. auto.
+  - intro S. specialize (HS S). inv HS. cbn [tl]. auto.
+Qed.
+
+Lemma split_sats_sizes : forall outs rs per_out lft,
+  split_sats outs rs = Ok (per_out, lft) -> Forall2 (fun o m => ranges_size m = o_value o) outs per_out.
+Proof.
+  intros outs. induction outs as [|o r IH]; intros rs per_out lft H; cbn [split_sats] in H.
+  - inv H. constructor.
+  - dbind H. destruct a as [mine rest]. dbind H. destruct a as [others l2]. inv H.
+    apply take_sats_spec in E. destruct E as (m' & A & B & _). cbn [app] in A. subst m'. constructor; eauto.
+Qed.
+
+Lemma take_sats_total : forall fuel remaining rs acc,
+  (length rs < fuel)%nat -> remaining <= ranges_size rs -> exists r, take_sats fuel remaining rs acc = Ok r.
+Proof.
+  intros fuel. induction fuel as [|fu IH]; intros remaining rs acc HF HR; [lia|]. cbn [take_sats].
+  destruct (N.eqb_spec remaining 0); [eauto|]. destruct rs as [|[s e] r]; [cbn in HR; lia|].
+  cbn [ranges_size fold_right fst snd] in HR. fold (ranges_size r) in HR.
+  destruct (N.ltb_spec remaining (e - s)); [eauto|]. apply IH; [cbn in HF; lia|lia].
+Qed.
+
+Lemma split_sats_total : forall outs rs, sum_values outs <= ranges_size rs -> exists r, split_sats outs rs = Ok r.
+Proof.
+  intros outs. induction outs as [|o r IH]; intros rs H; cbn [split_sats]; [eauto|].
+  cbn [sum_values fold_right] in H. fold (sum_values r) in H.
+  destruct (take_sats_total (S (length rs)) (o_value o) rs []) as ([mine rest] & E); [lia|lia|]. rewrite E. cbn [bind].
+  pose proof (take_sats_size _ _ _ _ _ _ E) as SZ. destruct (IH rest) as ([others l2] & E2); [lia|]. rewrite E2. cbn [bind]. eauto.
+Qed.
+
+Lemma push_insc_led : forall cfg L op s off U, Led cfg L U -> Led cfg L (push_insc op s off U).
+Proof.
+  intros cfg L op s off U HL k v Hq. destruct (HL k v Hq) as (u & A & B).
+  destruct (push_insc_lookup cfg op s off U k u A) as (u' & A' & B'). exists u'. split; auto. congruence.
+Qed.
+
+Lemma step_led : forall cfg L h rg f sp o b b',
+  Led cfg L (s_utxo (b_st b)) -> update_location h rg f sp o b = Ok b' -> Led cfg L (s_utxo (b_st b')).
+Proof.
+  intros cfg L h rg f sp o b b' HL H. destruct (update_utxo_shape _ _ _ _ _ _ _ H) as (op & s & off & U & _).
+  rewrite U. apply push_insc_led. exact HL.
+Qed.
+
+Lemma apply_locs_led : forall cfg L h rg locs b b',
+  Led cfg L (s_utxo (b_st b)) -> apply_locs h rg locs b = Ok b' -> Led cfg L (s_utxo (b_st b')).
+Proof.
+  intros cfg L h rg locs. induction locs as [|[[[op off] f] o] r IH]; intros b b' HL H; cbn [apply_locs] in H.
+  - inv H. auto.
+  - dbind H. eapply IH; [|exact H]. eapply step_led; eauto.
+Qed.
+
+Lemma apply_lost_led : forall cfg L h rg ov l b b',
+  Led cfg L (s_utxo (b_st b)) -> apply_lost h rg ov l b = Ok b' -> Led cfg L (s_utxo (b_st b')).
+Proof.
+  intros cfg L h rg ov l. induction l as [|f r IH]; intros b b' HL H; cbn [apply_lost] in H.
+  - inv H. auto.
+  - dbind H. dbind H. eapply IH; [|exact H]. eapply step_led; eauto.
 Qed.
